@@ -1339,10 +1339,9 @@ impl SimKernel for KHandle {
             if s.rxq.is_empty() {
                 return Err(libc::EAGAIN);
             }
-            if eintr_p > 0.0 && k.rng.chance(eintr_p) {
-                k.stat("fault.eintr");
-                return Err(libc::EINTR);
-            }
+            /* (EINTR is not injected: every receive erbium makes is non-blocking, and a call
+             * that does not sleep cannot be interrupted; the knob is kept at zero) */
+            let _ = eintr_p;
             let s = sock_mut(k, fd)?;
             let d = s.rxq.pop_front().unwrap();
             let n = d.data.len().min(buf.len());
